@@ -148,6 +148,10 @@ func (s *service) OnPayload(ep *payload.Extensible) error {
 			s.log.Error("can't add SV-signed state root", zap.Error(err))
 			return nil
 		}
+		if err != nil {
+			// Not a valid root, still have to collect signatures ourselves.
+			return err
+		}
 		s.srMtx.Lock()
 		ir, ok := s.incompleteRoots[sr.Index]
 		s.srMtx.Unlock()
@@ -156,7 +160,7 @@ func (s *service) OnPayload(ep *payload.Extensible) error {
 			ir.isSent = true
 			ir.Unlock()
 		}
-		return err
+		return nil
 	case VoteT:
 		v := m.Payload.(*Vote)
 		return s.AddSignature(v.Height, v.ValidatorIndex, v.Signature)
